@@ -9,14 +9,34 @@ Lemma num_run_chars h : forall s ae run rest, num_run h ae s = (run, rest) ->
   forallb (fun c => is_alnum c || (c =? 46) || (c =? 43) || (c =? 45)) run = true.
 Proof.
   induction s as [|c r IH]; intros ae run rest H; cbn [num_run] in H; [inversion H; reflexivity|].
-  destruct (is_alnum c || (c =? 46)) eqn:C.
+  destruct (is_hex c || (c =? 46) || (h && ((c =? 112) || (c =? 80)))) eqn:C.
   - destruct (num_run h _ r) as [a b] eqn:E in H. inversion H; subst. cbn [forallb].
-    rewrite (IH _ _ _ E). destruct (is_alnum c), (c =? 46); try discriminate; reflexivity.
+    rewrite (IH _ _ _ E). rewrite andb_true_r.
+    unfold is_hex, is_lower_hex, is_upper_hex, is_alnum, is_alpha, is_digit in *. destruct h; cbn [andb] in C; lia.
   - destruct (ae && ((c =? 43) || (c =? 45))) eqn:C2.
     + destruct (num_run h false r) as [a b] eqn:E in H. inversion H; subst. cbn [forallb].
       rewrite (IH _ _ _ E). apply andb_true_iff in C2. destruct C2 as [_ C2].
       destruct (is_alnum c), (c =? 46), (c =? 43), (c =? 45); try discriminate; reflexivity.
     + inversion H; reflexivity.
+Qed.
+
+Lemma num_split_chars s run rest : num_split s = (run, rest) ->
+  forallb (fun c => is_alnum c || (c =? 46) || (c =? 43) || (c =? 45)) run = true.
+Proof.
+  assert (B : forall s run rest, num_body s = (run, rest) ->
+    forallb (fun c => is_alnum c || (c =? 46) || (c =? 43) || (c =? 45)) run = true).
+  { intros s0 run0 rest0. unfold num_body. destruct s0 as [|z [|x r]]; try apply num_run_chars.
+    assert (Eh : is_hex_prefix (z :: x :: r) = pfx 120 88 (z :: x :: r)) by apply is_hex_prefix_pfx. rewrite Eh.
+    destruct (pfx 120 88 (z :: x :: r)) eqn:P; [|apply num_run_chars].
+    destruct (num_run true false r) as [a b] eqn:E. intros H. inversion H; subst. cbn [forallb].
+    rewrite (num_run_chars _ _ _ _ _ E). unfold pfx in P.
+    assert (Hz : is_alnum z = true) by (unfold is_alnum, is_alpha, is_digit; lia).
+    assert (Hx : is_alnum x = true) by (unfold is_alnum, is_alpha, is_digit; lia).
+    rewrite Hz, Hx. reflexivity. }
+  unfold num_split. destruct s as [|c r]; [intros H; inversion H; reflexivity|].
+  destruct (c =? 46) eqn:Ec; [|apply B].
+  destruct (num_body r) as [a b] eqn:E. intros H. inversion H; subst. cbn [forallb].
+  rewrite (B _ _ _ E), Ec. rewrite orb_true_r. reflexivity.
 Qed.
 
 Lemma tok_diff_number t tk l c :
@@ -56,9 +76,9 @@ Proof.
       rewrite expected_46, first_matcher_cons.
       destruct (run_matcher MNumDecFrac (46 :: r)) as [[a b]|]; [exact Hm | discriminate]. }
   assert (Hl : last (s_raw t) 0 <> 13).
-  { unfold spec_number in Hs. destruct (num_run (is_hex_prefix (c :: r)) false (c :: r)) as [run rest0] eqn:E.
+  { unfold spec_number in Hs. destruct (num_split (c :: r)) as [run rest0] eqn:E.
     destruct (spec_numeral run) as [[n d]|]; [|discriminate]. inversion Hs; subst. cbn [s_raw] in *.
-    pose proof (last_forallb _ _ Hne (num_run_chars _ _ _ _ _ E)) as P. cbv beta in P.
+    pose proof (last_forallb _ _ Hne (num_split_chars _ _ _ E)) as P. cbv beta in P.
     intros C. rewrite C in P. discriminate. }
   exists (mk_tok KNumber (s_raw t) l col [] None (s_raw t)). split; [|split; [|split]].
   - apply (Step_one l col (c :: r) _ (s_raw t) rest); try reflexivity; [|exact Hne].
